@@ -3572,7 +3572,9 @@ func (s *Server) toolMessagesPublish(args map[string]any) (any, error) {
 		return nil, err
 	}
 
-	store, err := s.openSQLiteStore()
+	// Publish is an enqueue: it is subject to queue_limits like ingress and
+	// the Admin API, so open the store with the configured limits.
+	store, err := s.openSQLiteStore(queue.WithSQLiteQueueLimits(compiled.QueueLimits.MaxDepth, compiled.QueueLimits.DropPolicy))
 	if err != nil {
 		return nil, err
 	}
@@ -3592,19 +3594,17 @@ func (s *Server) toolMessagesPublish(args map[string]any) (any, error) {
 		return nil, fmt.Errorf("items[%d].id %q already exists", dupIdx, dupID)
 	}
 
-	published := 0
-	for i, env := range prepared {
-		if err := store.Enqueue(env); err != nil {
-			switch {
-			case errors.Is(err, queue.ErrEnvelopeExists):
-				return nil, fmt.Errorf("items[%d].id %q already exists", i, env.ID)
-			case errors.Is(err, queue.ErrQueueFull):
-				return nil, fmt.Errorf("items[%d]: queue full", i)
-			default:
-				return nil, fmt.Errorf("items[%d]: %w", i, err)
-			}
+	// All-or-nothing, like POST /messages/publish on the Admin API.
+	published, err := store.EnqueueBatch(prepared)
+	if err != nil {
+		switch {
+		case errors.Is(err, queue.ErrEnvelopeExists):
+			return nil, errors.New("an item id already exists")
+		case errors.Is(err, queue.ErrQueueFull):
+			return nil, errors.New("queue full")
+		default:
+			return nil, err
 		}
-		published++
 	}
 	return map[string]any{
 		"published": published,
@@ -4594,7 +4594,7 @@ func (s *Server) resolveConfigPath(args map[string]any) (string, error) {
 	return p, nil
 }
 
-func (s *Server) openSQLiteStore() (*queue.SQLiteStore, error) {
+func (s *Server) openSQLiteStore(opts ...queue.SQLiteOption) (*queue.SQLiteStore, error) {
 	p := strings.TrimSpace(s.DBPath)
 	if p == "" {
 		return nil, errors.New("db path is not configured")
@@ -4609,7 +4609,7 @@ func (s *Server) openSQLiteStore() (*queue.SQLiteStore, error) {
 	if info.IsDir() {
 		return nil, fmt.Errorf("db path %q is a directory", p)
 	}
-	return queue.NewSQLiteStore(p)
+	return queue.NewSQLiteStore(p, opts...)
 }
 
 type idMutationPolicyContext struct {
